@@ -386,13 +386,14 @@ func runC39(c *fw.Ctx) {
 	c.States(len(seen))
 	c.Transitions(totalTrans * len(backends))
 	c.Sample(map[string]any{"state": init.key(), "request": []string{"a:h1->h3", "b:zero->hM"}, "expected": "a applied, b refused"})
-	c39Concurrent(c, u)
+	c39Concurrent(c, u, false)
+	c39Concurrent(c, u, true)
 	c.TracesValidated(0)
 }
 
 // c39Concurrent: two pushes updating the same ref from the same old value on
 // one filesystem server, under every interleaving of filesystem calls.
-func c39Concurrent(c *fw.Ctx, u *c39Uni) {
+func c39Concurrent(c *fw.Ctx, u *c39Uni, packedRef bool) {
 	maxPre := c.Pick(1, 2)
 	c.Bound("concurrent_max_preemptions", maxPre)
 	base := mcfs.NewWorld()
@@ -404,6 +405,13 @@ func c39Concurrent(c *fw.Ctx, u *c39Uni) {
 		for _, o := range u.h3objs {
 			if _, err := st.SetEncodedObject(o); err != nil {
 				fw.Abort("preload: %v", err)
+			}
+		}
+		if packedRef {
+			// the contended reference exists only in packed-refs (as after gc): the check-and-set
+			// has to create the loose file, a different code path from rewriting an existing one
+			if err := st.PackRefs(); err != nil {
+				fw.Abort("preload pack-refs: %v", err)
 			}
 		}
 	}
@@ -494,16 +502,20 @@ func c39Concurrent(c *fw.Ctx, u *c39Uni) {
 		if i := strings.Index(k, ": A="); i > 0 {
 			k = k[:i]
 		}
-		c.Fail("concurrent pushes | "+k, "two concurrent pushes a:h1->h2 and a:h1->h3 on one filesystem server: "+f.What, map[string]any{"choices": f.Choices, "log": f.Log})
+		kind := "loose ref"
+		if packedRef {
+			kind = "packed-only ref"
+		}
+		c.Fail("concurrent pushes ("+kind+") | "+k, "two concurrent pushes a:h1->h2 and a:h1->h3 on one filesystem server ("+kind+"): "+f.What, map[string]any{"choices": f.Choices, "log": f.Log})
 		return false
 	}, func(msg string) { c.EngineError("concurrent pushes: %s", msg) })
 	c.Evals(st.Executions)
-	c.Extra("concurrent_schedules", st.Executions)
-	c.Extra("concurrent_outcomes", len(outcomes))
+	c.Extra(fmt.Sprintf("concurrent_schedules(packed=%v)", packedRef), st.Executions)
+	c.Extra(fmt.Sprintf("concurrent_outcomes(packed=%v)", packedRef), len(outcomes))
 	if !st.Complete {
 		c.Incomplete("deadline inside the concurrent-push exploration")
 	}
 	for o := range outcomes {
-		c.Class("concurrent|" + o)
+		c.Class(fmt.Sprintf("concurrent|%v|%s", packedRef, o))
 	}
 }
